@@ -3,6 +3,7 @@
 From Coq Require Import List ZArith Bool Lia Permutation Sorted.
 Import ListNotations.
 Require Import Pyrefact.SchedModel Pyrefact.SchedProofs Pyrefact.Splice.
+Require Import Pyrefact.IgnoreModel Pyrefact.SchedApplyModel Pyrefact.SchedApplyProofs.
 Open Scope Z_scope.
 
 (* T10.1 atomicity: for every list of groups, every yield list and every transaction assignment,
@@ -72,6 +73,63 @@ Theorem T10_7_fix_bounded :
     exists n, (n <= max_iter)%nat /\ fix_wrapper A pass src_eqb max_iter src = Nat.iter n pass src.
 Proof. exact fix_bounded. Qed.
 Print Assumptions T10_7_fix_bounded.
+
+(* T10.1b atomicity of the whole pass (scheduler + application step of the repaired code): for EVERY refusal
+   predicate on single rewrites (the tool's one: "changes nothing but blank lines / trailing whitespace"), the
+   rewrites of a transaction that are spliced into the text are none, or exactly its (set-deduplicated) rewrites;
+   and what is spliced stays pairwise disjoint. *)
+Theorem T10_1b_pass_atomicity :
+  forall (T : Type) (teqb : T -> T -> bool) (tcmp : T -> T -> comparison),
+    (forall a b, teqb a b = true <-> a = b) ->
+  forall (refused : tkey * rewrite T -> bool) (ilines : list range) (groups : list (list (yielded T)))
+         (key : tkey),
+    let got := filter (fun e => key_eqb (fst e) key)
+                      (surviving T refused (schedule T teqb tcmp ilines groups)) in
+    got = [] \/ Permutation (map snd got) (nodup_rw T teqb (tx_of T groups key)).
+Proof. exact pass_atomic. Qed.
+Print Assumptions T10_1b_pass_atomicity.
+
+Theorem T10_2b_pass_disjointness :
+  forall (T : Type) (teqb : T -> T -> bool) (tcmp : T -> T -> comparison)
+         (refused : tkey * rewrite T -> bool) (ilines : list range) (groups : list (list (yielded T))),
+    ForallOrdPairs (fun a b => overlaps (rrng (snd a)) (rrng (snd b)) = false)
+                   (surviving T refused (schedule T teqb tcmp ilines groups)).
+Proof. exact pass_disjoint. Qed.
+Print Assumptions T10_2b_pass_disjointness.
+
+(* T10.3b a scheduled transaction is taken out at the application step iff one of its members is refused
+   (finding F10-3: this reason is not in the property's list). *)
+Theorem T10_3b_refused_iff :
+  forall (T : Type) (refused : tkey * rewrite T -> bool) (sched : list (tkey * rewrite T)) (key : tkey),
+    In key (map fst sched) ->
+    (In key (map fst (surviving T refused sched)) <->
+     forall e, In e sched -> fst e = key -> refused e = false).
+Proof. exact surviving_drop_iff. Qed.
+Print Assumptions T10_3b_refused_iff.
+
+(* T10.1c the application step BEFORE repairs a77dd14 / ffcbb2f (hunt items C10-0, C10-1) is refuted: a transaction
+   accepted by the scheduler with two members is applied in part, once through the whitespace-only refusal and
+   once through the ignore test re-run on the partly rewritten text; partial: when no member is refused at its turn
+   the old step is the pure splice. *)
+Theorem T10_1c_old_apply_step_refuted :
+  (exists src ilines groups key,
+      length (filter (fun e => key_eqb (fst e) key) (schedule_text ilines groups)) = 2%nat
+      /\ torn key (outcomes_v0 src (schedule_text ilines groups)) = true
+      /\ In (key, RefusedWs) (outcomes_v0 src (schedule_text ilines groups)))
+  /\ (exists src ilines groups key,
+      length (filter (fun e => key_eqb (fst e) key) (schedule_text ilines groups)) = 2%nat
+      /\ torn key (outcomes_v0 src (schedule_text ilines groups)) = true
+      /\ In (key, RefusedIgnore) (outcomes_v0 src (schedule_text ilines groups))).
+Proof. exact apply_v0_atomic_refuted. Qed.
+Print Assumptions T10_1c_old_apply_step_refuted.
+
+Theorem T10_1c_old_apply_step_partial :
+  forall (sched : list entry) (src : ztext),
+    Forall wf_entry sched ->
+    no_refusal (outcomes_v0 src sched) = true ->
+    apply_v0 src sched = apply_all Z src (map (fun e => (rrng (snd e), rnew (snd e))) sched).
+Proof. exact apply_v0_partial. Qed.
+Print Assumptions T10_1c_old_apply_step_partial.
 
 (* non-vacuity: 3 groups, 5 transactions: one self-overlap, one duplicate, one cross-group conflict,
    one on an ignored line; exactly one survives besides the first. *)
